@@ -267,11 +267,11 @@ func (ex *Exec) selectStep(st *State, in *ssa.Select) bool {
 	} else {
 		ex.position(st)
 		ex.selCount[st.key]++
-		c := ex.freshInt(fmt.Sprintf("sel!%s!%d", st.key, ex.selCount[st.key]), big0, bigInt(int64(n-1)))
+		c := ex.freshInt(fmt.Sprintf("sel!%s!%d", shortHash(st.key), ex.selCount[st.key]), big0, bigInt(int64(n-1)))
 		for i := 0; i < n; i++ {
 			ch := tb.False
 			for c0 := 0; c0 < n; c0++ {
-				t := tb.And(tb.Eq(c, tb.Int(int64(c0))), ready[i])
+				t := tb.And(tb.Eq(c, ex.intConstLike(c, int64(c0))), ready[i])
 				for j := 0; j < n; j++ {
 					if (j-c0+n)%n < (i-c0+n)%n {
 						t = tb.And(t, tb.Not(ready[j]))
